@@ -142,6 +142,9 @@ pub struct Builtins;
 
 pub struct Eval<'f> {
     pub funcs: &'f dyn Funcs,
+    /// a step-0 slice of a non-array: error (false) or null (true); the
+    /// property leaves this open, the oracle accepts either
+    pub step0_nonarray_null: bool,
 }
 
 fn jv(v: Value) -> R<V> {
@@ -150,7 +153,16 @@ fn jv(v: Value) -> R<V> {
 
 impl<'f> Eval<'f> {
     pub fn builtin() -> Eval<'static> {
-        Eval { funcs: &Builtins }
+        Eval {
+            funcs: &Builtins,
+            step0_nonarray_null: false,
+        }
+    }
+    pub fn builtin_lenient() -> Eval<'static> {
+        Eval {
+            funcs: &Builtins,
+            step0_nonarray_null: true,
+        }
     }
 
     pub fn search(&self, n: &N, cur: &Value) -> R<V> {
@@ -187,6 +199,9 @@ impl<'f> Eval<'f> {
             }),
             K::Literal(v) => jv(v.clone()),
             K::Slice(a, b, c) => {
+                if *c == 0 && self.step0_nonarray_null && !cur.is_array() {
+                    return jv(Value::Null);
+                }
                 if *c == 0 {
                     return Err(RErr {
                         class: ErrClass::InvalidValue,
